@@ -795,6 +795,18 @@ def rule_t7(F):
     default = [(ln, sh) for ln, sh in fs if not _mentions_captured(sh)]
     r.inst("per-variant arm filter", {"found": len(per_variant)})
     r.inst("default arm filter", {"found": len(default)})
+    if default and not per_variant and b.mir:
+        # the chain of each variant is not a filter over the complete arm list: what is it built from?
+        defs_ = mir.Defs(b)
+        srcs = set()
+        for bi, t in mir.calls(b):
+            if hir.last(mir.callee(t) or "") == "match_case" and len(t["args"]) > 5 and mir.is_place_op(t["args"][5]):
+                srcs |= {hir.last(mir.callee_def(b.blocks[x]["term"]) or "") for x in mir.back_calls(b, defs_, t["args"][5][1][0])}
+        if srcs & {"entry", "or_default", "values_mut", "get_mut", "index", "get", "push"}:
+            r.bad(b.path, "per-variant chain built incrementally", relfile(b.file), b.line,
+                  "the arms tried for a variant are collected incrementally (%s) instead of by selecting, from the COMPLETE arm list, the arms of that variant and the wildcard arms: a "
+                  "wildcard arm written before a variant's first own arm is missing from that variant's chain (its guard is never evaluated)" % ", ".join(sorted(x for x in srcs if x)[:6]))
+            return r
     if not per_variant or not default:
         r.missing("the two arm filters of r#match (per variant: %d, default: %d)" % (len(per_variant), len(default)))
         return r
